@@ -23,6 +23,7 @@ Transformations (each preserves behaviour by construction):
   early_continue a for-loop body ending in `if c: A` -> `if not c: continue` followed by A
   extract_test  in a method, a side-effect free `if` test over self/parameters/globals moves into a new method returning it (two per method)
   tuple_loop    two consecutive `if` statements differing in one `self.<attr>` place -> a loop over the tuple of the two places
+  split_if      `if c: S1; S2…` -> `f = bool(c); if f: S1` followed by `if f: S2…` (a flag tested twice: the first two eligible ifs of every function)
 """
 
 import ast
@@ -351,6 +352,40 @@ class TupleLoop(ast.NodeTransformer):
         return n
 
 
+class SplitIf(ast.NodeTransformer):
+    """`if c: S1; S2…` (no else, side-effect free test, two or more statements) -> `split_N = c; if split_N: S1` + `if split_N: S2…` (the first two such
+    ifs of every function; the test is evaluated once, as before, whatever S1 does)"""
+    def visit_FunctionDef(self, fn):
+        self.generic_visit(fn)
+        state = {'k': 0}
+
+        def body(stmts):
+            out = []
+            for st in stmts:
+                for fld in ('body', 'orelse', 'finalbody'):
+                    v = getattr(st, fld, None)
+                    if isinstance(v, list) and v and isinstance(v[0], ast.stmt) and not isinstance(st, (ast.FunctionDef, ast.AsyncFunctionDef, ast.ClassDef)):
+                        if not (fld == 'orelse' and isinstance(st, ast.If) and len(v) == 1 and isinstance(v[0], ast.If)):
+                            setattr(st, fld, body(v))
+                if isinstance(st, ast.Try):
+                    for h in st.handlers:
+                        h.body = body(h.body)
+                if isinstance(st, ast.If) and not st.orelse and len(st.body) >= 2 and state['k'] < 2 and _side_effect_free(st.test) \
+                        and not isinstance(st.test, (ast.Name, ast.Constant)) and not isinstance(st.body[0], (ast.Return, ast.Raise, ast.Break, ast.Continue)):
+                    state['k'] += 1
+                    name = f'split_{state["k"]}'
+                    val = st.test if isinstance(st.test, (ast.Compare, ast.UnaryOp)) else ast.Call(func=ast.Name(id='bool', ctx=ast.Load()), args=[st.test], keywords=[])
+                    out.append(ast.copy_location(ast.Assign(targets=[ast.Name(id=name, ctx=ast.Store())], value=val), st))
+                    out.append(ast.copy_location(ast.If(test=ast.Name(id=name, ctx=ast.Load()), body=st.body[:1], orelse=[]), st))
+                    out.append(ast.copy_location(ast.If(test=ast.Name(id=name, ctx=ast.Load()), body=st.body[1:], orelse=[]), st.body[1]))
+                else:
+                    out.append(st)
+            return out
+        if not any(isinstance(w, (ast.FunctionDef, ast.Lambda, ast.AsyncFunctionDef)) and w is not fn for w in ast.walk(fn)):
+            fn.body = body(fn.body)
+        return fn
+
+
 def transform(src_text, kind, final=None):
     tree = ast.parse(src_text)
     if kind == 'reformat':
@@ -385,6 +420,8 @@ def transform(src_text, kind, final=None):
         tree = ExtractTest().visit(tree)
     elif kind == 'tuple_loop':
         tree = TupleLoop().visit(tree)
+    elif kind == 'split_if':
+        tree = SplitIf().visit(tree)
     else:
         raise ValueError(kind)
     ast.fix_missing_locations(tree)
@@ -393,6 +430,8 @@ def transform(src_text, kind, final=None):
 
 KINDS = ['reformat', 'invert_if', 'demorgan', 'swap_compare', 'nest_and', 'rename_locals', 'alias_final', 'flag_local', 'pop_drop', 'guard_return', 'else_dedent',
          'ifexp_split', 'aug_assign', 'early_continue', 'extract_test', 'tuple_loop']
+# not part of the default run: see DESIGN §10.9 (a known limit — 8 of the 20 files it changes still raise alarms; run with --kinds split_if)
+EXTRA_KINDS = ['split_if']
 
 
 def anchor_files():
